@@ -228,8 +228,12 @@ PROPS = {
     "C20": {
         "level": "exploration",
         "jobs": [
-            {"run": "^TestC20Prod", "pkg": "./prod", "tags": "verif", "stage": 0,
+            {"run": "^TestC20Prod", "pkg": "./prod", "tags": "verif", "stage": 0, "env": {"TZ": "UTC"},
              "checks": {"quick": 20000, "thorough": 2000000}, "shards": {"quick": 1, "thorough": 1}},
+            {"run": "^TestC20Prod(GenesisAndClock|Conversions)", "pkg": "./prod", "tags": "verif", "stage": 0, "env": {"TZ": "Asia/Tokyo"},
+             "checks": {"quick": 5000, "thorough": 200000}, "shards": {"quick": 1, "thorough": 1}},
+            {"run": "^TestC20Prod(GenesisAndClock|Conversions)", "pkg": "./prod", "tags": "verif", "stage": 0, "env": {"TZ": "America/New_York"},
+             "checks": {"quick": 5000, "thorough": 200000}, "shards": {"quick": 1, "thorough": 1}},
             {"run": "^TestC20(Conversions|WindowSafety)", "stage": 1, "rapid": False,
              "checks": {"quick": 0, "thorough": 0}, "shards": {"quick": 1, "thorough": 1}},
             {"run": "^TestC20AcceptanceNoWrap", "stage": 1,
@@ -346,7 +350,7 @@ META = {
     },
     "C20": {
         "technique": "exhaustive boundary enumeration plus property-based testing against an int64 reference, in both the production and the test build",
-        "text": "Conversions are checked at every 5-minute boundary up to the 32-bit no-overflow bound (exhaustive, both builds) and at random times; production genesis and clock are checked in a build without the test tag; acceptance at uint32-extreme (now, slot) pairs is compared with the int64 predicate on two live servers, one with the window at offset 0 and one with the last window that fits into 32 bits (offset 4294963008, restored from a constructed archive file); the rotation trigger and acceptance half-width are measured on the live server and combined with the production rotation period in T+P+1+W<4032.",
+        "text": "Conversions are checked at every 5-minute boundary up to the 32-bit no-overflow bound (exhaustive, both builds) and at random times; production genesis and clock are checked in a build without the test tag, run under TZ=UTC, Asia/Tokyo and America/New_York (zone data embedded); acceptance at uint32-extreme (now, slot) pairs is compared with the int64 predicate on two live servers, one with the window at offset 0 and one with the last window that fits into 32 bits (offset 4294963008, restored from a constructed archive file); the rotation trigger and acceptance half-width are measured on the live server and combined with the production rotation period in T+P+1+W<4032.",
         "note": "The window-safety inequality uses the measured trigger and half-width of the test build (same source lines in both builds) and the production period constant; clock values above the uint32 range are out of scope.",
     },
     "C18": {
